@@ -127,13 +127,26 @@ func SynchronousModeFromInt(i int) (SynchronousMode, error) {
 	}
 }
 
+const (
+	// pragmaWS matches SQL white space, which includes comments.
+	pragmaWS = `(?:\s|--[^\n]*(?:\n|$)|/\*.*?\*/)`
+
+	// pragmaStart matches the PRAGMA keyword at the start of any statement in
+	// the text, and an optional schema name in any of its quoted forms.
+	pragmaStart = `(?is)(?:^|;)` + pragmaWS + `*PRAGMA` + pragmaWS + `+` +
+		`(?:(?:\w+|"[^"]*"|'[^']*'|` + "`[^`]*`" + `|\[[^\]]*\])` + pragmaWS + `*\.` + pragmaWS + `*)?`
+
+	// pragmaSet matches both ways of setting a value, name=value and name(value).
+	pragmaSet = pragmaWS + `*[=(]`
+)
+
 // BreakingPragmas are PRAGMAs that, if executed, would break the database layer.
 var BreakingPragmas = map[string]*regexp.Regexp{
-	"PRAGMA journal_mode":       regexp.MustCompile(`(?i)^\s*PRAGMA\s+(\w+\.)?journal_mode\s*=\s*`),
-	"PRAGMA wal_autocheckpoint": regexp.MustCompile(`(?i)^\s*PRAGMA\s+wal_autocheckpoint\s*=\s*`),
-	"PRAGMA wal_checkpoint":     regexp.MustCompile(`(?i)^\s*PRAGMA\s+(\w+\.)?wal_checkpoint`),
-	"PRAGMA synchronous":        regexp.MustCompile(`(?i)^\s*PRAGMA\s+(\w+\.)?synchronous\s*=\s*`),
-	"PRAGMA query_only":         regexp.MustCompile(`(?i)^\s*PRAGMA\s+(\w+\.)?query_only\s*=\s*`),
+	"PRAGMA journal_mode":       regexp.MustCompile(pragmaStart + `journal_mode` + pragmaSet),
+	"PRAGMA wal_autocheckpoint": regexp.MustCompile(pragmaStart + `wal_autocheckpoint` + pragmaSet),
+	"PRAGMA wal_checkpoint":     regexp.MustCompile(pragmaStart + `wal_checkpoint`),
+	"PRAGMA synchronous":        regexp.MustCompile(pragmaStart + `synchronous` + pragmaSet),
+	"PRAGMA query_only":         regexp.MustCompile(pragmaStart + `query_only` + pragmaSet),
 }
 
 // IsBreakingPragma returns true if the given statement is a breaking PRAGMA.
